@@ -1,9 +1,81 @@
-import LLTD.Model.Event
-import LLTD.Spec.Block
+/-
+  C18 — Platform faults degrade service gracefully and never wedge the responder.
+  The fault schedule is part of `World` (which allocations return NULL, which transmits are refused) and of `Cfg`
+  (which getters fail); the theorems quantify over all of them.
+-/
+import LLTD.Lemmas.Safe
 
 namespace LLTD.C18
-open LLTD LLTD.Spec
+open LLTD
 
-theorem placeholder_layout : X.sizeofDemux = 32 := by decide
+/-- no crash: whatever allocation returns nothing, whatever transmit is refused, whatever getter fails, no handler
+    touches memory it does not own (every NULL result is checked before use: in the model a missing block simply
+    does not exist) -/
+theorem no_crash (c : Cfg) (g : Glob) (w : World) (st : St) (img : List Nat) (hc : CfgOk c) (hlen : img.length = c.mtu) :
+    (parseFrameSt c g w st img).fault = none :=
+  parseFrameSt_safe c g w st img hc (by omega) (by have := hc.mtuLo; omega)
+
+/-- no leak: under every fault schedule the ledger after a frame holds exactly the retained state -/
+theorem no_leak (c : Cfg) (g : Glob) (w : World) (st : St) (img : List Nat) (b bb : Nat) (hc : CfgOk c)
+    (hl : 36 ≤ img.length) (h : Accounted w st b bb) :
+    Accounted (parseFrameSt c g w st img).w (parseFrameSt c g w st img).st b bb :=
+  parseFrameSt_ledger c g w st img b bb hc hl h
+
+/-- a failed allocation of the per-interface record leaves everything as it was -/
+theorem record_alloc_failure (c : Cfg) (g : Glob) (w : World) (img : List Nat) (hl : 36 ≤ img.length)
+    (hm : (w.malloc X.stateRecBytes).2 = false) :
+    (parseFrame c g w none img).1 = none ∧ (parseFrame c g w none img).2.2.1 = [] ∧ (parseFrame c g w none img).2.2.2 = none ∧
+    w.same (parseFrame c g w none img).2.1 := by
+  have hrd : rdOk img 0 (X.sizeofDemux + 4) = true := rdOk_of_le _ _ _ (by simp only [X.sizeofDemux_val]; omega)
+  unfold parseFrame
+  simp only [hrd, Bool.not_true, Bool.false_eq_true, if_false, hm, Bool.not_false, if_true]
+  exact ⟨by first | rfl | trivial, by first | rfl | trivial, by first | rfl | trivial, malloc_fail w _ hm⟩
+
+/-- the automata constructors report failure instead of dereferencing a missing allocation, and leak nothing -/
+theorem ctor_mapping (w : World) (hm : (w.malloc X.sizeofAutomata).2 = false) :
+    (initMapping w).2 = none ∧ w.same (initMapping w).1 := by
+  unfold initMapping
+  simp only [hm, Bool.not_false, if_true]
+  exact ⟨by first | rfl | trivial, malloc_fail w _ hm⟩
+
+theorem ctor_session (w : World) (hm : (w.malloc X.sizeofAutomata).2 = false) :
+    (initSession w).2 = none ∧ w.same (initSession w).1 := by
+  unfold initSession
+  simp only [hm, Bool.not_false, if_true]
+  exact ⟨by first | rfl | trivial, malloc_fail w _ hm⟩
+
+theorem ctor_enumeration_first (w : World) (hm : (w.malloc X.sizeofAutomata).2 = false) :
+    (initEnumeration w).2 = none ∧ w.same (initEnumeration w).1 := by
+  unfold initEnumeration
+  simp only [hm, Bool.not_false, if_true]
+  exact ⟨by first | rfl | trivial, malloc_fail w _ hm⟩
+
+/-- second allocation (the RepeatBand state) failing: the automaton already obtained is released again -/
+theorem ctor_enumeration_second (w : World) (h1 : (w.malloc X.sizeofAutomata).2 = true)
+    (h2 : ((w.malloc X.sizeofAutomata).1.malloc X.sizeofBandState).2 = false) :
+    (initEnumeration w).2 = none ∧ w.same (initEnumeration w).1 := by
+  unfold initEnumeration
+  simp only [h1, h2, Bool.not_true, Bool.false_eq_true, if_false, Bool.not_false, if_true]
+  exact ⟨by first | rfl | trivial, malloc_then_free w _ _ h1 (malloc_fail _ _ h2)⟩
+
+theorem ctor_table (w : World) (hm : (w.malloc X.sizeofSessionTable).2 = false) :
+    (tableCreate w).2 = none ∧ w.same (tableCreate w).1 := by
+  unfold tableCreate
+  simp only [hm, Bool.not_false, if_true]
+  exact ⟨by first | rfl | trivial, malloc_fail w _ hm⟩
+
+/-- after the fault has cleared, a topology Reset returns the ledger to the bare per-interface records -/
+theorem reset_after_faults (c : Cfg) (g : Glob) (w : World) (st : St) (img : List Nat) (b bb : Nat)
+    (htos : fTos img = 0) (hop : fOpcode img = 8) (h : Accounted w st b bb) :
+    (parseFrameSt c g w st img).w.live = b ∧ (parseFrameSt c g w st img).w.bytes = bb := by
+  have hr := reset_ledger w st b bb h
+  have e : parseFrameSt c g w st img = { st := resetSt st, w := resetWorld w st, fx := [] } := by
+    simp [parseFrameSt, htos, hop]
+  rw [e]
+  unfold Accounted retained retainedBytes iconBlocks iconBytes resetSt at hr
+  simpa using hr
+
+/-- non-vacuity: a world in which the second allocation fails -/
+example : (({ failMalloc := [2] } : World).malloc 10).2 = true ∧ ((({ failMalloc := [2] } : World).malloc 10).1.malloc 10).2 = false := by decide
 
 end LLTD.C18
